@@ -208,7 +208,7 @@ def perp(eq, mesh, spec):
                 if target == psi0:
                     end = p0
                 else:
-                    sol = solve_ivp(rhs, (psi0, target), p0, rtol=1e-11, atol=1e-13, method="DOP853")
+                    sol = solve_ivp(rhs, (psi0, target), p0, rtol=1e-13, atol=1e-14, method="DOP853")
                     if not sol.success:
                         continue
                     end = sol.y[:, -1]
